@@ -21,7 +21,7 @@ fn spec(tier: Tier) -> CheckSpec {
 	CheckSpec {
 		property: "C13",
 		level: "exploration",
-		rule: "exhaustive: (objects) every 2-layer inheritance chain of the C02 generator (quick: 6 member kinds per name, thorough: all 12; both composition syntaxes; plain, hidden, unhidden, +:, self/super/$ references, object locals) and every 1-layer object, each passed to objectFields/objectFieldsAll/objectFieldsEx, objectHas/objectHasAll/objectHasEx for visible, hidden and absent keys, objectValues(All), objectKeysValues(All), std.get with and without default and inc_hidden, length, type, mapWithKey, objectRemoveKey followed by field listing and manifestation, prune, equals with a re-layered copy; \
+		rule: "exhaustive: (objects) every 2-layer inheritance chain of the C02 generator (quick: 6 member kinds per name, thorough: all 12; both composition syntaxes; plain, hidden, unhidden, +:, self/super/$ references, object locals) and every 1-layer object, plus every 2-layer chain over the 5 plain kinds with std.objectRemoveKey applied between and/or after the layers, each passed to objectFields/objectFieldsAll/objectFieldsEx, objectHas/objectHasAll/objectHasEx for visible, hidden and absent keys, objectValues(All), objectKeysValues(All), std.get with and without default and inc_hidden, length, type, mapWithKey, objectRemoveKey followed by field listing, manifestation, objectHas/objectHasAll/get(inc_hidden=false) and re-definition of the key below and above the removed part, prune, equals with a re-layered copy; \
 			(patch) std.mergePatch over every (target, patch) pair of a 16-value set (null, numbers, {}, {a:1}, {a:null}, {a:{b:null}}, {a:{b:1,c:2}}, hidden fields, arrays, non-object targets) and nested once more; std.prune over trees with nested empties; (types) std.type, the std.is* predicates, std.length, equals/primitiveEquals/assertEqual, xor/xnor over all pairs of a 14-value set; (lazy) objects with a failing or diverging field through every function that must not force it. \
 			Oracle: reference definitions (harness/src/refstd.rs) on the reference object model. non-trivial = distinct call text with a reference verdict"
 			.into(),
@@ -71,6 +71,15 @@ fn object_calls() -> Vec<(&'static str, Ex)> {
 		v.push(("get", stdcall("get", vec![o(), s(k), s("dflt"), Ex::False])));
 		v.push(("objectRemoveKey", stdcall("objectFieldsAll", vec![stdcall("objectRemoveKey", vec![o(), s(k)])])));
 		v.push(("objectRemoveKey", stdcall("objectRemoveKey", vec![o(), s(k)])));
+		// removal followed by a visibility-sensitive lookup, with the key defined again below / above the removed part
+		let removed = || stdcall("objectRemoveKey", vec![o(), s(k)]);
+		let lit = |v: f64| obj(vec![field(k, Vis::Normal, false, n(v))]);
+		v.push(("objectRemoveKey", stdcall("objectHas", vec![removed(), s(k)])));
+		v.push(("objectRemoveKey", stdcall("objectHasAll", vec![removed(), s(k)])));
+		v.push(("objectRemoveKey", stdcall("objectHas", vec![bin(lit(0.0), BinOp::Add, removed()), s(k)])));
+		v.push(("objectRemoveKey", stdcall("get", vec![bin(removed(), BinOp::Add, lit(5.0)), s(k), s("dflt"), Ex::False])));
+		v.push(("objectRemoveKey", stdcall("objectFields", vec![bin(lit(0.0), BinOp::Add, removed())])));
+		v.push(("objectRemoveKey", bin(lit(0.0), BinOp::Add, removed())));
 		v.push(("objectRemoveKey", bin(stdcall("objectRemoveKey", vec![o(), s(k)]), BinOp::Add, obj(vec![field("top", Vis::Normal, false, Ex::Arr(vec![bin(s(k), BinOp::In, Ex::Super)]))]))));
 	}
 	v
@@ -115,9 +124,24 @@ fn part_objects(cx: &mut Ctx, journal: &Journal) {
 			layers: (0..2).map(|li| LayerD { kinds: vec![kinds[c[li * 2]], kinds[c[li * 2 + 1]]], assert_kind: 0, ext: li == 1 && c[4] == 1, mask_before: None }).collect(),
 		});
 	});
+	// objects that already went through std.objectRemoveKey between / after their layers
+	let mk: &[u8] = &[0, 1, 2, 3, 4];
+	for_each_product(&[5, 5, 5, 5, 3], |_, c| {
+		let (mask_before, mask_after) = match c[4] {
+			0 => (Some(0), None),
+			1 => (None, Some(0)),
+			_ => (Some(1), Some(0)),
+		};
+		chains.push(Chain {
+			nnames: 2,
+			dup_last: 0,
+			mask_after,
+			layers: (0..2).map(|li| LayerD { kinds: vec![mk[c[li * 2]], mk[c[li * 2 + 1]]], assert_kind: 0, ext: false, mask_before: if li == 1 { mask_before } else { None } }).collect(),
+		});
+	});
 	for ch in &chains {
 		let oe = build(ch);
-		let shape = format!("{} layer(s)", ch.layers.len());
+		let shape = format!("{} layer(s){}", ch.layers.len(), if ch.mask_after.is_some() || ch.layers.iter().any(|l| l.mask_before.is_some()) { ", keys removed" } else { "" });
 		for (f, call) in &calls {
 			run(cx, journal, f, local1("o", oe.clone(), call.clone()), &shape);
 		}
